@@ -43,6 +43,7 @@ def handleLine (line : String) : String :=
   | "once" :: _ => DriverNotif.handle ts
   | "idl" :: _ => DriverIdl.handle ts
   | "idlrt" :: _ => DriverIdl.handle ts
+  | "idlx" :: _ => DriverIdl.handle ts
   | "reply" :: _ => DriverEnv.handle ts
   | "calldec" :: _ => DriverEnv.handle ts
   | "enc" :: _ => DriverEnv.handle ts
